@@ -678,6 +678,10 @@ func (viso *VirtualISO) read(buf []byte, off int64) (int64, error) {
 	// read files
 	if offset < viso.padAreaStart {
 		for fileItem := range viso.files.filesToRead(remain, offset) {
+			if fileItem.size == 0 { // occupies no sector
+				continue
+			}
+
 			if offset < fileItem.rLBA.bytes() {
 				return read, fmt.Errorf("file %s location (%d) greater than offset (%d)",
 					fileItem.path, fileItem.rLBA.bytes(), offset)
